@@ -40,12 +40,14 @@ func (w *vWorld) poolAlloc(pool *Pool, name string, lo, hi int, mapped bool) *vA
 	})
 	verifAssume(!p)
 	verifAssume(err == nil)
-	v := &vAlloc{a: a, reqSize: size, reqAlign: 1, typeBits: 1 << uint(pool.blockList.memoryTypeIndex), pool: pool, mappedReq: mapped, mapAllow: true, ud: ud}
+	v := &vAlloc{a: a, reqSize: size, reqAlign: 1, typeBits: 1 << uint(pool.blockList.memoryTypeIndex), pool: pool, mappedReq: mapped, mapAllow: true, ud: ud,
+		minAlign: int(pool.blockList.minAllocationAlignment)}
 	w.live = append(w.live, v)
 	return v
 }
 
-// vDefrag: cfg%32 device variant; cfg/32%2: algorithm (0 full, 1 fast); cfg/64: layout.
+// vDefrag: cfg%32 device variant; cfg/32%2: algorithm (0 full, 1 fast); cfg/64%4: layout (0: four allocations,
+// 1: five allocations, 2: mapped-neighbour layout, 3: four allocations in a pool with MinAllocationAlignment 32).
 func vDefrag(prop int, cfg int) {
 	w := newWorld(prop, cfg%32)
 	flags := DefragmentationFlagAlgorithmFull
@@ -54,33 +56,58 @@ func vDefrag(prop int, cfg int) {
 	}
 	var pool *Pool
 	var err error
+	layout := (cfg / 64) % 4
+	poolMinAlign := 0
+	if layout == 3 {
+		poolMinAlign = 32 // a pool minimum alignment larger than every requested alignment
+	}
 	p := verifCatch(func() {
-		pool, _, err = w.al.CreatePool(PoolCreateInfo{MemoryTypeIndex: tHostCoh, BlockSize: 256, MaxBlockCount: 3})
+		pool, _, err = w.al.CreatePool(PoolCreateInfo{MemoryTypeIndex: tHostCoh, BlockSize: 256, MaxBlockCount: 3, MinAllocationAlignment: uint(poolMinAlign)})
 	})
 	verifAssume(!p)
 	verifAssume(err == nil)
 	w.pools = append(w.pools, pool)
 	persistent := verifChoice("persistentlyMapped", 2) == 1
-	// block 0: three allocations that fill most of it; block 1: one or two more
-	a0 := w.poolAlloc(pool, "s0", 1, 120, false)
-	a1 := w.poolAlloc(pool, "s1", 1, 120, persistent)
-	a2 := w.poolAlloc(pool, "s2", 1, 120, false)
-	a3 := w.poolAlloc(pool, "s3", 1, 200, persistent)
-	_ = a1
-	_ = a3
-	if (cfg/64)%2 == 1 {
-		w.poolAlloc(pool, "s4", 1, 200, false)
-	}
-	verifAssume(pool.blockList.BlockCount() >= 2)
-	// holes
-	switch verifChoice("holes", 3) {
-	case 0:
-		w.freeV(a0)
-	case 1:
-		w.freeV(a2)
-	case 2:
-		w.freeV(a0)
-		w.freeV(a2)
+	if layout == 2 {
+		// mapped-neighbour layout: block 0 = 100, 100, hole candidate; block 1 = a persistently mapped allocation and a
+		// plain mappable neighbour; the hole is freed, so that an allocation of block 1 is relocated into block 0
+		w.poolAlloc(pool, "c0", 100, 100, false)
+		w.poolAlloc(pool, "c1", 100, 100, persistent)
+		h := w.poolAlloc(pool, "hole", 30, 56, false)
+		w.poolAlloc(pool, "pm", 100, 100, true)
+		w.poolAlloc(pool, "nb", 1, 50, false)
+		verifAssume(pool.blockList.BlockCount() >= 2)
+		w.freeV(h)
+	} else {
+		// block 0: three allocations that fill most of it; block 1: one or two more
+		var a0, a1, a2, a3 *vAlloc
+		if layout == 3 { // fewer symbolic sizes: the alignment masks make these queries expensive
+			a0 = w.poolAlloc(pool, "s0", 1, 90, false)
+			a1 = w.poolAlloc(pool, "s1", 40, 40, persistent)
+			a2 = w.poolAlloc(pool, "s2", 50, 50, false)
+			a3 = w.poolAlloc(pool, "s3", 1, 60, persistent)
+		} else {
+			a0 = w.poolAlloc(pool, "s0", 1, 120, false)
+			a1 = w.poolAlloc(pool, "s1", 1, 120, persistent)
+			a2 = w.poolAlloc(pool, "s2", 1, 120, false)
+			a3 = w.poolAlloc(pool, "s3", 1, 200, persistent)
+		}
+		_ = a1
+		_ = a3
+		if layout == 1 {
+			w.poolAlloc(pool, "s4", 1, 200, false)
+		}
+		verifAssume(pool.blockList.BlockCount() >= 2)
+		// holes
+		switch verifChoice("holes", 3) {
+		case 0:
+			w.freeV(a0)
+		case 1:
+			w.freeV(a2)
+		case 2:
+			w.freeV(a0)
+			w.freeV(a2)
+		}
 	}
 	w.oracleC02("C" + pname(prop) + "/defrag/before")
 
